@@ -17,10 +17,23 @@ def analyse(prop, root, tier, sources=None):
     pkg = Package(root, sources=sources)
     mod = importlib.import_module(f"ocv.props.{prop.lower()}")
     ctx = Ctx(pkg, prop, tier)
+    from .absint import Interp
+    from .core import UNKNOWN, VIOLATION
+    Interp.UNHANDLED.clear()
     try:
         mod.run(ctx)
     except AnalysisError as ex:
         ctx.unknown(f"{prop}.anchor", None, None, "anchor", str(ex))
+    if Interp.UNHANDLED:
+        # never report a violation for a function the interpreter could only partly read: say so instead (exit 2, not 1)
+        partly = {q for _k, q, _t, _l in Interp.UNHANDLED} | {t for _k, _q, t, _l in Interp.UNHANDLED}
+        kinds = sorted({f"{k} at {q}:{l}" for k, q, _t, l in Interp.UNHANDLED})
+        for r in ctx.results:
+            if r.status == VIOLATION and r.func in partly:
+                r.status = UNKNOWN
+                r.msg = f"not decided: the function uses a statement form the interpreter does not model ({'; '.join(kinds[:3])}); would have reported: {r.msg}"[:600]
+        ctx.unknown(f"{prop}.syntax", None, None, "unmodelled statement", "; ".join(kinds[:5]))
+        Interp.UNHANDLED.clear()
     return mod, ctx
 
 
